@@ -70,14 +70,26 @@ Proof.
   rewrite wrap_id by lia. reflexivity.
 Qed.
 
+(* the generated code's primitive operators are Rint's *)
+Lemma p_arith_rint c t z : p_arith c t z = Rint.arith (mode_of c) t z.
+Proof.
+  unfold p_arith. destruct (fits t z) eqn:E; [|reflexivity].
+  apply fits_spec in E. destruct (mode_of c); cbn [Rint.arith]; [rewrite chk_ok | rewrite wrap_id]; auto.
+Qed.
+
+Lemma p_ops_rint c t a b :
+  p_add c t a b = Some (Rint.add (mode_of c) t a b) /\ p_sub c t a b = Some (Rint.sub (mode_of c) t a b) /\
+  p_mul c t a b = Some (Rint.mul (mode_of c) t a b) /\ p_neg c t a = Some (Rint.neg (mode_of c) t a).
+Proof. unfold p_add, p_sub, p_mul, p_neg. rewrite !p_arith_rint. auto. Qed.
+
 Lemma p_add_prim c t a b : p_add c t a b = Some (prim c (ity_of t) (a + b)).
-Proof. unfold p_add, Rint.add. rewrite prim_rint. reflexivity. Qed.
+Proof. unfold p_add. rewrite p_arith_rint, prim_rint. reflexivity. Qed.
 Lemma p_sub_prim c t a b : p_sub c t a b = Some (prim c (ity_of t) (a - b)).
-Proof. unfold p_sub, Rint.sub. rewrite prim_rint. reflexivity. Qed.
+Proof. unfold p_sub. rewrite p_arith_rint, prim_rint. reflexivity. Qed.
 Lemma p_mul_prim c t a b : p_mul c t a b = Some (prim c (ity_of t) (a * b)).
-Proof. unfold p_mul, Rint.mul. rewrite prim_rint. reflexivity. Qed.
+Proof. unfold p_mul. rewrite p_arith_rint, prim_rint. reflexivity. Qed.
 Lemma p_neg_prim c t a : p_neg c t a = Some (prim c (ity_of t) (- a)).
-Proof. unfold p_neg, Rint.neg. rewrite prim_rint. reflexivity. Qed.
+Proof. unfold p_neg. rewrite p_arith_rint, prim_rint. reflexivity. Qed.
 
 Lemma bindM_ret_r {A} (m : M A) : bindM m ret = m.
 Proof. destruct m as [[a|k|]|]; reflexivity. Qed.
